@@ -1,0 +1,30 @@
+//go:build verif
+
+package statsd
+
+import (
+	"context"
+	"time"
+
+	"github.com/atlassian/gostatsd/pkg/stats"
+)
+
+// VerifC01FlushData runs one complete flush (MetricFlusher.flushData) synchronously, exactly as
+// MetricFlusher.Run does on a tick.
+func (f *MetricFlusher) VerifC01FlushData(ctx context.Context, flushInterval time.Duration, statser stats.Statser) {
+	f.flushData(ctx, flushInterval, statser)
+}
+
+// VerifC01Queued returns the number of metric maps waiting in the workers' queues.
+func (bh *BackendHandler) VerifC01Queued() int {
+	n := 0
+	for _, w := range bh.workers {
+		n += len(w.metricMapQueue)
+	}
+	return n
+}
+
+// VerifC01SetNow replaces the aggregator's clock (used by Reset for expiry).
+func (a *MetricAggregator) VerifC01SetNow(now func() time.Time) {
+	a.now = now
+}
